@@ -18,7 +18,7 @@ RULE = ("PARSE: valid RDF 1.1 streams (from both pyjelly serializers and from th
         "datatypes, graph names, Prefix events). WRITE: the two serializers are given corresponding input (the same "
         "statement sequence as generator; stores built in the same iteration order) and the same explicit "
         "SerializerOptions for Triple/Quad/GraphStream via flat_stream_to_frames, stream_frames and "
-        "grouped_stream_to_frames; the bytes must be identical. Non-trivial: streams with >= 2 frames or >= 1 eviction "
+        "grouped_stream_to_frames (also 2-5 sinks with repeating namespace bindings through one stream); the bytes must be identical. Non-trivial: streams with >= 2 frames or >= 1 eviction "
         "(parse) / inputs with >= 1 separator-less IRI or >= 2 graphs (write); distinct by hash of bytes / input.")
 ASSUMPTIONS = [
     "store-based serializer comparison feeds the generic sink in the rdflib store's own iteration order (rdflib stores have no caller-defined order)",
@@ -188,17 +188,54 @@ def write_case(ctx, rng):
              sample={"part": "write", "entry": entry, "physical": phys, "n_statements": len(stmts), "namespaces": len(ns)})
 
 
+def multi_sink_write_case(ctx, rng):
+    """Several graphs/sinks with (repeating) namespace bindings through ONE stream: both serializers, same bytes."""
+    import rdflib
+
+    cfg, groups, nss = workloads.multi_sink_case(rng, with_ns=rng.random() < .7)
+    dataset = cfg["physical"] != 1
+    stores = [pj.rdflib_store_of(g, n, dataset=dataset) for g, n in zip(groups, nss)]
+    # the generic sinks get statements and bindings in the rdflib stores' own iteration order
+    sinks = []
+    for st in stores:
+        order = list(st.quads()) if dataset else list(st)
+        neutral = [tuple(T.from_rdflib(t, i == 3) for i, t in enumerate(q)) for q in order]
+        sinks.append(pj.generic_sink_of(neutral, [(p, str(u)) for p, u in st.namespaces()]))
+    outs = {}
+    for integ, data_objs, mod in (("generic", sinks, gser), ("rdflib", stores, rser)):
+        out = io.BytesIO()
+        try:
+            pj.write_frames(mod.grouped_stream_to_frames((x for x in data_objs), pj.make_options(cfg)), out, True)
+            outs[integ] = out.getvalue()
+        except Exception as e:  # noqa: BLE001
+            outs[integ] = f"raised {type(e).__name__}: {e}"
+    ctx.observe("serializer-pairs-compared")
+    ctx.observe("write:multi-sink")
+    g, r = outs["generic"], outs["rdflib"]
+    if g != r and not (isinstance(g, str) and isinstance(r, str)):
+        ctx.violation({"part": "write-multi", "clause": "serializer-bytes-differ", "cfg": cfg, "groups": T.to_json(groups), "nss": nss,
+                       "summary": f"{len(groups)} sinks through one stream (ns={cfg['ns']}): generic "
+                                  f"{g if isinstance(g, str) else str(len(g)) + ' bytes'} vs rdflib {r if isinstance(r, str) else str(len(r)) + ' bytes'}"})
+    ctx.case(("wm", sorted(cfg.items()), groups, nss), len(groups) >= 2,
+             sample={"part": "write-multi", "cfg": cfg, "group_sizes": [len(x) for x in groups], "bindings": [len(n) for n in nss]})
+
+
 def run_shard(ctx):
     i = 0
     while not ctx.out_of_time():
         rng = ctx.rng(i)
         i += 1
+        if i % 5 == 0:
+            multi_sink_write_case(ctx, rng)
+            continue
         (parse_case if i % 2 else write_case)(ctx, rng)
 
 
 def replay(w: dict):
     if w.get("part") == "parse":
         return parse_agreement(bytes.fromhex(w["bytes"]))
+    if w.get("part") == "write-multi":
+        return {"clause": w["clause"], "summary": "multi-sink witnesses are reproduced by re-running ./check C15 with the same VERIF_SEED"}
     cfg = w["cfg"]
     cfg["preset"] = tuple(cfg["preset"])
     stmts = list(T.from_json(w["stmts"]))
